@@ -39,10 +39,10 @@ TIE = {
     'gen_modules': MODULE_ORDER,
     'chain': ['MalVerif.Py.AbsClasses', 'MalVerif.Py.TieClassesBase', 'MalVerif.Py.TieClassesAssets',
               'MalVerif.Py.TieClassesAssoc', 'MalVerif.Py.TieClassesAssocAbs', 'MalVerif.Py.TieClassesSig',
-              'MalVerif.Py.TieClassesTop', 'MalVerif.PropsGen.C06'],
+              'MalVerif.Py.TieClassesTop', 'MalVerif.Py.TieClassesPreFix', 'MalVerif.PropsGen.C06'],
     'needs': {'C06': ['MalVerif.Py.TieClassesBase', 'MalVerif.Py.TieClassesAssets', 'MalVerif.Py.TieClassesAssoc',
                       'MalVerif.Py.TieClassesAssocAbs', 'MalVerif.Py.TieClassesSig', 'MalVerif.Py.TieClassesTop',
-                      'MalVerif.PropsGen.C06']},
+                      'MalVerif.Py.TieClassesPreFix', 'MalVerif.PropsGen.C06']},
     'sources': {'C06': 'language/classes_factory.py: LanguageClassesFactory._generate_assets, _generate_associations '
                        '(create_association_entry, create_association_with_subentries, create_association_field), '
                        '_create_classes (python_jsonschema_objects is a parameter: Pjs), get_association_by_signature'},
@@ -502,6 +502,17 @@ class Translator:
                     raise Unsupported('build_classes call')
                 kc, kt = self.expr(e.keywords[0].value, cx)
                 return f'(← pjs.build_classes {c} {self.to_v(kc, kt)})', 'pjs'
+            if f.attr == 'get' and len(e.args) in (1, 2) and not e.keywords:
+                # d.get(k) / d.get(k, default) on a dynamically typed value (AttributeError unless it is a dict)
+                c, t = self.expr(f.value, cx)
+                if t != 'V': raise Unsupported(f'.get on a value of type {t} at {where(e)}')
+                kc, kt = self.expr(e.args[0], cx)
+                if len(e.args) == 2:
+                    dc, dt = self.expr(e.args[1], cx)
+                    dv = self.to_v(dc, dt)
+                else:
+                    dv = 'V.none'
+                return f'(← getOr {c} {self.to_v(kc, kt)} {dv})', 'V'
             if f.attr == 'replace' and len(e.args) == 2 and not e.keywords:
                 c, t = self.expr(f.value, cx)
                 a = [self.expr(x, cx) for x in e.args]
